@@ -1,5 +1,5 @@
 CONSTANTS Mode = "tiny"
-  NCand = 9
+  NCand = 10
 INIT TInit
 NEXT TNext
 CHECK_DEADLOCK FALSE
